@@ -128,6 +128,84 @@ func corrCases(e *hx.Env) []corrCase {
 			return fmt.Sprintf("ok %d", cnt)
 		})
 	}
+	// 1b walkConfiguredIPRanges: real IPAM configured with random disjoint pool ranges, random requested ranges (incl. 2^32)
+	for c := 0; c < e.N(3, 12); c++ {
+		base := uint32(10<<24 | 9<<16)
+		var ranges [][2]uint32
+		cur := base + 2
+		for k := 1 + r.Intn(4); k > 0 && cur < base+60000; k-- {
+			lo := cur + uint32(r.Intn(300))
+			hi := lo + uint32(r.Intn(200))
+			ranges = append(ranges, [2]uint32{lo, hi})
+			cur = hi + 2 + uint32(r.Intn(500))
+		}
+		var ips, confArg []string
+		for _, rg := range ranges {
+			ips = append(ips, fmt.Sprintf("%q", ipOf(rg[0]).String()+"~"+ipOf(rg[1]).String()))
+			confArg = append(confArg, fmt.Sprintf("%d-%d", rg[0], rg[1]))
+		}
+		// two pools so that the parts have to be merged across pools and sorted
+		half := len(ips) / 2
+		pools := fmt.Sprintf(`[{"nodeSubnets":["10.0.1.0/24"],"ips":[%s],"subnet":"10.9.0.0/16","gateway":"10.9.0.1"}`, strings.Join(ips[half:], ","))
+		if half > 0 {
+			pools += fmt.Sprintf(`,{"nodeSubnets":["10.0.2.0/24"],"ips":[%s],"subnet":"10.9.0.0/16","gateway":"10.9.0.1","vlan":2}`, strings.Join(ips[:half], ","))
+		}
+		pools += "]"
+		var ipam floatingip.IPAM
+		getIpam := func() floatingip.IPAM {
+			if ipam == nil {
+				d, err := lockset.NewIpamd(pools)
+				if err != nil {
+					panic(fmt.Sprintf("walkconf pools %s: %v", pools, err))
+				}
+				ipam = d.Plugin.GetIpam()
+			}
+			return ipam
+		}
+		for q := 0; q < e.N(12, 40); q++ {
+			var first, last uint32
+			switch r.Intn(5) {
+			case 0:
+				first, last = 0, 0xffffffff
+			case 1:
+				first, last = base, base+0xffff
+			case 2:
+				rg := ranges[r.Intn(len(ranges))]
+				first, last = rg[0]+uint32(r.Intn(50)), rg[1]+uint32(r.Intn(400))
+			case 3:
+				rg := ranges[r.Intn(len(ranges))]
+				first = rg[0] - uint32(r.Intn(300))
+				last = first + uint32(r.Intn(900))
+			default:
+				first = base + uint32(r.Intn(60000))
+				last = first - 1 + uint32(r.Intn(3))
+			}
+			f, l := first, last
+			add(fmt.Sprintf("walkconf %d %d %s", f, l, strings.Join(confArg, ",")), func() string {
+				var out string
+				done := hx.Guard(3*time.Second, func() {
+					v, ok := floatingip.VerifLsWalkConfigured(getIpam(), []nets.IPRange{{First: ipOf(f), Last: ipOf(l)}})
+					if !ok {
+						out = "not-crd-ipam"
+						return
+					}
+					if len(v) == 0 {
+						out = "ok -"
+						return
+					}
+					parts := make([]string, len(v))
+					for i, x := range v {
+						parts[i] = strconv.FormatUint(uint64(x), 10)
+					}
+					out = "ok " + strings.Join(parts, ",")
+				})
+				if done != "ok" {
+					return done
+				}
+				return out
+			})
+		}
+	}
 	// 2 pagination
 	numStr := func() string {
 		switch r.Intn(4) {
